@@ -14,10 +14,25 @@ SOLVER = "cspuz/solver.py"
 
 def solver_world(repo: Repo, pre_env: Optional[Dict[str, Any]] = None, extra_funcs: Optional[Dict[str, Any]] = None) -> ClassWorld:
     env: Dict[str, Any] = {"warnings": Tag("warnings"), "warnings.warn": lambda *a, **k: None, "config": Tag("config"),
-                           "backend": Tag("backend")}
+                           "backend": backend_package()}
     env.update(pre_env or {})
     return ClassWorld([repo.mod(SOLVER)], extra_funcs, pre_env=env)
 
 
 def solver_self(cw: ClassWorld, **attrs: Any) -> Obj:
     return cw.adopt(Obj(["Solver"], **attrs), "Solver")
+
+
+BACKEND_CLASSES = {"sugar_like": ("SugarBackend", "SugarExtendedBackend", "CSugarBackend", "EnigmaCSPBackend", "CspuzCoreBackend"), "z3": ("Z3Backend",)}
+
+
+def backend_package(ctor_of=None) -> Obj:
+    """the `backend` package as seen from solver.py: sub-modules as objects whose attributes are the backend classes (opaque class
+    tags by default, or what `ctor_of(class name)` returns), so that `backend.z3.Z3Backend` and `getattr(getattr(backend, m), c)` agree"""
+    pkg = Obj(["module"], name="backend")
+    for modname, classes in BACKEND_CLASSES.items():
+        m = Obj(["module"], name=f"backend.{modname}")
+        for c in classes:
+            m.attrs[c] = ctor_of(c) if ctor_of else Tag(f"backend.{modname}.{c}")
+        pkg.attrs[modname] = m
+    return pkg
